@@ -54,8 +54,14 @@ EObj == [k |-> "eobj"]
 Root(a, n) == [k |-> "root", a |-> a, n |-> n]   \* counted handle to node n of arena a
 None == [k |-> "none"]                       \* the slot holds no value
 
-VARIABLES slot, arena, vec, map, model, nops, hist, last
-vars == <<slot, arena, vec, map, model, nops, hist, last>>
+\* de: the one deserializer / stream through which several values are obtained (Deserializer.shared: every value after the
+\* first lives in one arena that the deserializer holds a handle on): [open, a (its arena), broken (a value was rejected)]
+VARIABLES slot, arena, vec, map, model, nops, hist, last, de
+vars == <<slot, arena, vec, map, model, nops, hist, last, de>>
+DeClosed == [open |-> FALSE, a |-> 0, broken |-> FALSE]
+SlotLess(p, q) == LET ss == SetToSeq(Slots) IN (CHOOSE i \in 1..Len(ss) : ss[i] = p) < (CHOOSE i \in 1..Len(ss) : ss[i] = q)
+\* slots are interchangeable (positions of a vector in the harness): a new value goes to the first free slot (symmetry reduction)
+FirstFree(s) == slot[s] = None /\ \A q \in Slots : slot[q] = None => ~SlotLess(q, s)
 Heap == [arena |-> arena, vec |-> vec, map |-> map]
 FreeA == [rc |-> 0, alive |-> FALSE]
 FreeV == [rc |-> 0, used |-> FALSE, elems |-> <<>>]
@@ -128,6 +134,8 @@ ArrOp(op, e, x, i) ==
     [] op = "set"    -> IF i >= Len(e) THEN Reject(e) ELSE Res([e EXCEPT ![i + 1] = x], <<>>, <<e[i + 1]>>, <<>>)
     \* mem::take(&mut array[i]) : the element is handed out, Null stays behind (x must be the layer's Null)
     [] op = "take_elem" -> IF i >= Len(e) THEN Reject(e) ELSE Res([e EXCEPT ![i + 1] = x], <<e[i + 1]>>, <<>>, <<>>)
+    \* a lookup that does not resolve (get_mut / pointer_mut step): nothing changes
+    [] op = "probe" -> Reject(e)
     \* drain(..i): the first i elements are handed out in order (panics when i > len)
     [] op = "drain" -> IF i > Len(e) THEN Reject(e) ELSE Res(SubSeq(e, i + 1, Len(e)), SubSeq(e, 1, i), <<x>>, <<>>)
     \* mem::take(array).into_iter(): every element is handed out in order, an empty array stays behind;
@@ -153,6 +161,7 @@ ObjOp(op, m, key, x) ==
     [] op = "or_insert" -> IF key \in DOMAIN m THEN Res(m, <<>>, <<x>>, <<>>) ELSE Res(FnWith(m, key, x), <<>>, <<>>, <<>>)
     \* object[key] = x  (IndexMut: index-or-insert then assign)
     [] op = "set"    -> IF key \in DOMAIN m THEN Res(FnWith(m, key, x), <<>>, <<m[key]>>, <<>>) ELSE Res(FnWith(m, key, x), <<>>, <<>>, <<>>)
+    [] op = "probe" -> Reject(m)
     \* entry(key).key(): reads the key back (occupied or vacant), nothing changes
     [] op = "entry_key" -> Res(m, <<>>, <<x>>, <<>>)
     \* entry(key).and_modify(|v| *v = x): assigns when the member exists, otherwise nothing happens (x is destroyed)
@@ -307,11 +316,12 @@ RepApply(h, v, p, kind, op, x, arg) ==
 
 \* ---- actions ----------------------------------------------------------------------------
 Put(h) == arena' = h.arena /\ vec' = h.vec /\ map' = h.map
-Step(rec) == /\ nops < MaxOps /\ nops' = nops + 1 /\ HasFresh(Heap)
-             /\ hist' = Append(hist, rec) /\ last' = rec
+StepBase(rec) == /\ nops < MaxOps /\ nops' = nops + 1 /\ HasFresh(Heap)
+                 /\ hist' = Append(hist, rec) /\ last' = rec
+Step(rec) == StepBase(rec) /\ de' = de
 Init == /\ slot = [s \in Slots |-> None] /\ model = [s \in Slots |-> PNone]
         /\ arena = [i \in 1..MaxId |-> FreeA] /\ vec = [i \in 1..MaxId |-> FreeV] /\ map = [i \in 1..MaxId |-> FreeM]
-        /\ nops = 0 /\ hist = <<>> /\ last = [op |-> "init"]
+        /\ nops = 0 /\ hist = <<>> /\ last = [op |-> "init"] /\ de = DeClosed
 
 \* from_str::<Value>(DocText[d])
 Parse(s, d) ==
@@ -330,6 +340,36 @@ Parse(s, d) ==
 ParseRejected(b) ==
   /\ UNCHANGED <<slot, model, arena, vec, map>>
   /\ Step([op |-> "parse_bad", text |-> BadText[b]])
+\* ---- several values through one deserializer (Deserializer::deserialize::<Value>() repeatedly / a stream) ----
+\* The deserializer is opened by the first call (the harness lets it consume a leading scalar, so every value below is a
+\* "later" value: built in the deserializer's shared arena).  Values have independent lifetimes: each is a handle on the
+\* shared arena, which lives until the deserializer AND every value are gone.
+DeNext(s, d) ==
+  /\ slot[s] = None /\ ~de.broken
+  /\ LET n == DocRoot[d]
+         static == Nodes[n].k = "num" \/ (Nodes[n].k = "arr" /\ Nodes[n].kids = <<>>)
+         a == IF de.open THEN de.a ELSE FreshA(Heap)
+         base == IF de.open THEN arena[a].rc ELSE 1                    \* the deserializer's own handle
+     IN /\ arena' = [arena EXCEPT ![a] = [rc |-> base + (IF static THEN 0 ELSE 1), alive |-> TRUE]]
+        /\ slot' = [slot EXCEPT ![s] = IF static THEN (IF Nodes[n].k = "num" THEN Num(Nodes[n].n) ELSE EArr) ELSE Root(a, n)]
+        /\ de' = [open |-> TRUE, a |-> a, broken |-> FALSE]
+  /\ model' = [model EXCEPT ![s] = PlainNode(DocRoot[d])]
+  /\ UNCHANGED <<vec, map>>
+  /\ StepBase([op |-> "de_next", s |-> s, d |-> d, text |-> DocText[d]])
+\* a value of the stream is rejected; the caller keeps calling (results of those calls are not predicted): nothing that was
+\* handed out before may change
+DeBad ==
+  /\ de.open /\ ~de.broken
+  /\ de' = [de EXCEPT !.broken = TRUE]
+  /\ UNCHANGED <<slot, model, arena, vec, map>>
+  /\ StepBase([op |-> "de_bad"])
+\* the deserializer (and its input) go away
+DeClose ==
+  /\ de.open
+  /\ arena' = [arena EXCEPT ![de.a] = [rc |-> @.rc - 1, alive |-> @.rc - 1 > 0]]
+  /\ de' = DeClosed
+  /\ UNCHANGED <<slot, model, vec, map>>
+  /\ StepBase([op |-> "de_close"])
 \* a value built without parsing: json!([]) / Value::new_array() / object / scalar
 New(s, what) ==
   /\ slot[s] = None
@@ -397,6 +437,16 @@ Mutate(s, p, kind, op, src, arg, o) ==
         /\ Step([op |-> "mut", s |-> s, p |-> p, kind |-> kind, f |-> op, src |-> src, arg |-> arg, o |-> o,
                  ok |-> pm.ok, out |-> IF pm.out = <<>> THEN PNone ELSE pm.out[1], outs |-> pm.out])
 
+\* get_mut(e) / pointer_mut([.., e]) at the value at path p where e does not resolve there (missing key, index out of range,
+\* key into an array, index into an object, anything into a scalar or null): answers None and changes no contents.  The
+\* containers on the way, and the target when its kind matches e, are promoted as every &mut access does.
+Probe(s, p, e) ==
+  /\ slot[s] # None /\ PlainAt(model[s], p) # PNone /\ PlainAt(model[s], p \o <<e>>) = PNone
+  /\ LET r == RepApply(Heap, slot[s], p, IF IsKey(e) THEN "obj" ELSE "arr", "probe", Num(7), IF IsKey(e) THEN e.s ELSE e.i)
+     IN /\ Put(r.h) /\ slot' = [slot EXCEPT ![s] = r.v]
+  /\ UNCHANGED model
+  /\ Step([op |-> "probe", s |-> s, p |-> p, e |-> e])
+
 \* target.append(&mut other): all members of the container in slot src move into the container at path p of slot s;
 \* src stays an (empty) container.  Both sides are promoted (as_mut) first.
 AppendFrom(s, p, kind, src) ==
@@ -418,14 +468,17 @@ OutSlot(s, src) == LET free == {q \in Slots : q # s /\ q # src /\ slot[q] = None
                    IF free = {} THEN s ELSE CHOOSE q \in free : TRUE
 Consuming == {"push", "insert", "set", "resize"}
 Next ==
-  \/ \E s \in Slots, d \in 1..Len(DocRoot) : Parse(s, d)
+  \/ \E s \in Slots, d \in 1..Len(DocRoot) : FirstFree(s) /\ Parse(s, d)
   \/ \E b \in 1..Len(BadText) : ParseRejected(b)
-  \/ \E s \in Slots, w \in {"arr", "obj", "num"} : New(s, w)
-  \/ \E s \in Slots, w \in {"obj1", "arr2"} : Build(s, w)
+  \/ \E s \in Slots, w \in {"arr", "obj", "num"} : FirstFree(s) /\ New(s, w)
+  \/ \E s \in Slots, w \in {"obj1", "arr2"} : FirstFree(s) /\ Build(s, w)
   \/ \E s, src \in Slots, kind \in {"arr", "obj"} : \E p \in (IF slot[s] = None THEN {} ELSE ContainerPaths(s)) : AppendFrom(s, p, kind, src)
-  \/ \E s, t \in Slots : s # t /\ \E p \in (IF slot[s] = None THEN {} ELSE PathsOfPlain(model[s])) : Clone(s, p, t)
+  \/ \E s, t \in Slots : s # t /\ FirstFree(t) /\ \E p \in (IF slot[s] = None THEN {} ELSE PathsOfPlain(model[s])) : Clone(s, p, t)
   \/ \E s \in Slots : Drop(s)
-  \/ \E s, t \in Slots : s # t /\ Take(s, t)
+  \/ \E s \in Slots, d \in {1, 3} : FirstFree(s) /\ DeNext(s, d)
+  \/ DeBad \/ DeClose
+  \/ \E s \in Slots, e \in {PKey("z"), PIdx(5)} : \E p \in (IF slot[s] = None THEN {} ELSE {q \in PathsOfPlain(model[s]) : Len(q) <= 1}) : Probe(s, p, e)
+  \/ \E s, t \in Slots : s # t /\ FirstFree(t) /\ Take(s, t)
   \/ \E s \in Slots : \E p \in (IF slot[s] = None THEN {} ELSE ContainerPaths(s)) :
        \/ \E op \in Consuming, src \in {"lit"} \cup (Slots \ {s}), i \in {0, 2} : Mutate(s, p, "arr", op, src, i, OutSlot(s, src))
        \/ \E op \in ArrOps \ (Consuming \cup {"take_elem", "append", "into_iter", "retain_even"}), i \in {0, 1} : Mutate(s, p, "arr", op, "lit", i, OutSlot(s, "lit"))
@@ -444,7 +497,7 @@ AllVals == LET ss == SetToSeq(Slots)  sv == [i \in 1..Len(ss) |-> slot[ss[i]]]
            IN sv \o vv \o mv
 Count(P(_)) == Cardinality({i \in 1..Len(AllVals) : P(AllVals[i])})
 \* every reference count equals the number of live handles
-RcExact == /\ \A a \in 1..MaxId : arena[a].rc = Count(LAMBDA v : v.k = "root" /\ v.a = a)
+RcExact == /\ \A a \in 1..MaxId : arena[a].rc = Count(LAMBDA v : v.k = "root" /\ v.a = a) + (IF de.open /\ de.a = a THEN 1 ELSE 0)
            /\ \A i \in 1..MaxId : vec[i].rc = Count(LAMBDA v : v.k = "arr" /\ v.id = i)
            /\ \A i \in 1..MaxId : map[i].rc = Count(LAMBDA v : v.k = "obj" /\ v.id = i)
 \* an arena / container is alive exactly while it is referenced: freed once, never dangling
@@ -454,7 +507,7 @@ NoLeakNoDangling == /\ \A a \in 1..MaxId : arena[a].alive <=> arena[a].rc > 0
 \* the representation denotes the reference model in every slot (C15), in particular
 \* mutation of one slot never changes another (Isolation follows: model[q] is unchanged for q # s)
 Refines == \A s \in Slots : Abs(Heap, slot[s]) = model[s]
-AllDroppedEmpty == (\A s \in Slots : slot[s].k \in {"none", "null", "num", "str", "earr", "eobj"}) =>
+AllDroppedEmpty == (~de.open /\ \A s \in Slots : slot[s].k \in {"none", "null", "num", "str", "earr", "eobj"}) =>
                      \A i \in 1..MaxId : ~arena[i].alive /\ ~vec[i].used /\ ~map[i].used
 LiveArenas == Cardinality({a \in 1..MaxId : arena[a].alive})
 =============================================================================
